@@ -1,4 +1,5 @@
 import PyrollProofs.HeapSolve
+import PyrollProofs.HeapVel
 
 /-! Helper lemmas for C12, part 6: the list edits and histories.  `Good` (well-formed and typed) is kept by every
 op; objects of a kind that is never owned (plain / in-profiles, values, grooves, roll templates, atoms) are never
@@ -73,13 +74,14 @@ theorem Good.setCache {s : S} (g : Good s) {o : Nat} {c : List Nat} (ho : o < s.
   · intro l x hl hc
     rw [kind_setCache] at hl ⊢; rw [items_setCache] at hc; exact g.typed.items l x hl hc
 
-/-- kinds of objects no unit owns: the caller's and the returned profiles, in-profiles, values, grooves, templates -/
+/-- kinds of objects no unit owns: the caller's and the returned profiles, in-profiles, values, grooves, templates,
+callables given as explicit values -/
 def stableKind (k : Kind) : Prop :=
-  k = .profile ∨ k = .inProfile ∨ k = .value ∨ k = .groove ∨ k = .rollTemplate ∨ k = .atom
+  k = .profile ∨ k = .inProfile ∨ k = .value ∨ k = .groove ∨ k = .rollTemplate ∨ k = .atom ∨ k = .closure
 
 theorem stable_not_owned {k : Kind} (h : stableKind k) : ¬ ownedKind k := by
   unfold stableKind at h; unfold ownedKind
-  rcases h with h | h | h | h | h | h <;> subst h <;> simp
+  rcases h with h | h | h | h | h | h | h <;> subst h <;> simp
 
 /-- what an op guarantees -/
 structure Keeps (s s' : S) : Prop where
@@ -231,6 +233,35 @@ theorem keeps_solve (P : Producers) (hP : P.Safe) {s : S} (g : Good s) (fuel u p
   intro ho
   exact stable_not_owned hs (ho.kind g.typed hk)
 
+/-- a velocity solver of a sequence (any number of rounds) -/
+theorem keeps_solveVel (P : Producers) (hP : P.Safe) {s : S} (g : Good s) (n u p : Nat) (hu : u < s.h.next)
+    (hp : p < s.h.next) (hk : (s.h.obj u).kind = .unit) : Keeps s (solveVel P n s u p) := by
+  have T := solveVel_spec P hP n s u p g.wf hu hp
+  refine ⟨⟨T.wf, T.typed g.typed⟩, T.next_le, ?_⟩
+  intro q hq hs
+  apply T.frame q hq
+  intro ho
+  exact stable_not_owned hs (ho.kind g.typed hk)
+
+/-- the caller binds an explicit value of a unit to a callable that refers to another object -/
+theorem keeps_bind {s : S} (g : Good s) (u f t : Nat) (hu : u < s.h.next) (ht : t < s.h.next)
+    (hk : (s.h.obj u).kind = .unit) (hf : isPublic f = true) : Keeps s (bindCallable s u f t) := by
+  have g1 := g.alloc { kind := .closure, fields := [(fBIND, t)] }
+    (by intro v hv; simp [Obj.ptrs] at hv; omega)
+    (by intro e he hown; simp at he; subst he; exact absurd hown (show ¬ isOwn fBIND = true by decide))
+    (by intro h; cases h)
+  have g2 := g1.write (o := u) (f := f) (v := s.h.next) (by simp only [alloc_next]; omega) (by simp)
+    (by intro h; rw [isOwn_of_public hf] at h; cases h)
+  refine ⟨g2, by simp [bindCallable], ?_⟩
+  intro q hq hs
+  show ((s.alloc { kind := .closure, fields := [(fBIND, t)] }).1.write u f s.h.next).h.obj q = s.h.obj q
+  rw [write_obj]
+  have h1 : q ≠ u := by intro e; subst e; exact unit_not_stable hk hs
+  simp only [h1, if_false]
+  rw [alloc_obj]
+  have h2 : q ≠ s.h.next := by omega
+  simp only [h2, if_false]
+
 theorem keeps_step (P : Producers) (hP : P.Safe) {s : S} (g : Good s) (op : Op) : Keeps s (step P s op) := by
   cases op with
   | solve u p =>
@@ -252,6 +283,16 @@ theorem keeps_step (P : Producers) (hP : P.Safe) {s : S} (g : Good s) (op : Op) 
     simp only [step]
     split
     · rename_i h; exact keeps_gap g u h.1 h.2
+    · exact Keeps.refl g
+  | solveVel u p n =>
+    simp only [step]
+    split
+    · rename_i h; exact keeps_solveVel P hP g n u p h.1 h.2.1 h.2.2
+    · exact Keeps.refl g
+  | bind u f t =>
+    simp only [step]
+    split
+    · rename_i h; exact keeps_bind g u f t h.1 h.2.1 h.2.2.1 h.2.2.2
     · exact Keeps.refl g
 
 theorem keeps_run (P : Producers) (hP : P.Safe) : ∀ (ops : List Op) (s : S), Good s → Keeps s (run P s ops) := by
